@@ -32,10 +32,10 @@ def plan(tier, seed):
     perms = list(itertools.permutations(n3))
     for k, so in enumerate(perms):
         specs.append(dict(kind='all3', names=n3, src_order=so, hashseed=k))
-    ns = 32 if tier == 'thorough' else 8
+    ns = 32 if tier == 'thorough' else 12
     for k in range(ns):
         specs.append(dict(kind='sampled', sub=k, n=4 + k % 2,
-                          rounds=400 if tier == 'thorough' else 80,
+                          rounds=500 if tier == 'thorough' else 300,
                           hashseed=k))
     meta = dict(
         rule=RULE,
@@ -60,13 +60,19 @@ class Target:
         import dd.bdd as _b
         import dd.autoref as _a
         self._b, self._a = _b, _a
-        self.bdd = _b.BDD({v: i for i, v in enumerate(order)})
+        lv = {v: i for i, v in enumerate(order)}
+        if rng is not None:
+            keys = list(lv)
+            rng.shuffle(keys)
+            lv = {v: lv[v] for v in keys}
+        self.bdd = _b.BDD(lv)
         self.ab = _a.BDD()
         self.ab._bdd = self.bdd
         self.ab.vars = self.bdd.vars
         self.sp = Space(names)
         self.ext = collections.Counter()
         self.held = []
+        self.rng_used = rng is not None
         for _ in range(preload):
             t = random_table(rng, self.sp)
             r = build(self.bdd, t, self.sp)
@@ -145,7 +151,12 @@ def all3(ctx, spec):
     names = tuple(spec['names'])
     so = tuple(spec['src_order'])
     import dd.autoref as _a
-    A = AllFunctions(names, so)
+    import dd.bdd as _b
+    # declared in another order, then reordered to `so`
+    decl = tuple(reversed(so)) if spec.get('hashseed', 0) % 2 else so[1:] + so[:1]
+    A = AllFunctions(names, decl)
+    _b.reorder(A.bdd, {v: i for i, v in enumerate(so)})
+    A.order = so
     src = A.bdd
     src_ab = _a.BDD()
     src_ab._bdd = src
@@ -153,7 +164,8 @@ def all3(ctx, spec):
     before = snapshot(src)
     k = 0
     for to in itertools.permutations(names):
-        tgt = Target(names, to)
+        import random as _r
+        tgt = Target(names, to, _r.Random(k), preload=0)
         first = dict()
         for entry in ENTRY[:5]:
             for t, u in A.R.items():
@@ -209,7 +221,15 @@ def sampled(ctx, spec):
         sn = names + (extra_s if rng.random() < 0.4 else [])
         so = sn[:]
         rng.shuffle(so)
-        src = _b.BDD({v: i for i, v in enumerate(so)})
+        # the source is declared in one order and then reordered, so
+        # that the insertion order of its `vars` differs from its levels
+        decl = sn[:]
+        rng.shuffle(decl)
+        src = _b.BDD({v: i for i, v in enumerate(decl)})
+        if rng.random() < 0.7:
+            _b.reorder(src, {v: i for i, v in enumerate(so)})
+        else:
+            so = decl
         src_ab = _a.BDD()
         src_ab._bdd = src
         src_ab.vars = src.vars
